@@ -120,13 +120,14 @@ theorem registerP_memreg (r : RegA) (hr : MemRegOk r) (g rest : Txt) (hg : Blank
 theorem follow_bracket (gv E : Txt) (hg : Blank gv) : Follow (gv ++ 93 :: E) := by
   have hsk : skipWs (gv ++ 93 :: E) = 93 :: E := by
     rw [skipWs_blank_append gv _ hg, skipWs_cons 93 _ (by decide)]
-  refine ⟨?_, ?_, ?_⟩
+  refine ⟨?_, ?_, ?_, ?_⟩
   · intro c r hc
     cases gv with
     | nil => simp at hc; right; right; right; exact hc.1.symm
     | cons b g' => simp at hc; left; rw [← hc.1]; exact hg.cons.1
   · intro c r hc; rw [hsk] at hc; simp at hc; right; right; exact hc.1.symm
   · intro r hl; simp [lit, sk_true, hsk, dropPrefix] at hl
+  · intro r hr; rw [hsk] at hr; simp at hr
 
 /-! ### the shift of an index register -/
 /-- shift amount as the grammar reads it -/
@@ -258,7 +259,7 @@ theorem memMid_idx (r : RegA) (hr : MemRegOk r) (s : Option ShiftW) (hs : ShiftO
     have hplus : lit true [43] W = none := by simp [lit, sk_true, hskW, dropPrefix]
     have himm : immediate (g ++ (regText r ++ W)) = some (.ident ⟨none, c :: w, none⟩, skipWs W) := by
       rw [hcw, List.cons_append]
-      exact immediate_word' g c w W hg hal hw (hstopW isIdRestC (by decide) (by decide) (by decide)) hplus
+      exact immediate_word' g c w W hg (alpha_idFirst c hal) hw (hstopW isIdRestC (by decide) (by decide) (by decide)) hplus
     obtain ⟨rA', hA', _, _⟩ := amt_parse x.2 ga gv E hga hgv
     have hrAeq : rA' = rA := by
       have h1 := hst
